@@ -444,7 +444,7 @@ def clean_case(tree, mn, mx, mode=None):
 
 def gen_cases(rng, tier, ctx):
     cases = []
-    n = 180 if tier == 'quick' else 3000
+    n = 180 if tier == 'quick' else 2000
     for _ in range(n):
         cases.append(gen_prog_case(rng, tier))
     # targeted: small limits around hand-picked restructuring situations
